@@ -655,8 +655,8 @@ pub fn run(args: &Args, report: &mut Report) {
         }
         return;
     }
-    let nh = report.size(1200, 30_000);
-    let na = report.size(6000, 200_000);
+    let nh = report.size(4800, 100_000);
+    let na = report.size(24_000, 600_000);
     crate::report::par_run(report, nh + na, |i, rep| {
         if i < nh {
             let h = gen_hist(seed, i);
